@@ -1057,6 +1057,7 @@ def r_vbyte(db, rep):
     for en, dn in groups:
         enc, dec = db.fn(en), db.fn(dn)
         consts = {}
+        has_shift_ops = {}
         for role, f in (("enc", enc), ("dec", dec)):
             rep.visit(f)
             shifts, masks, flags, thresh = set(), set(), set(), set()
@@ -1078,21 +1079,28 @@ def r_vbyte(db, rep):
                         flags.add(cv)
                     if op == ">" and cv is not None:
                         thresh.add(cv)
+            has_shift_ops[role] = any(n["k"] in ("BinaryOperator", "CompoundAssignOperator") and n["op"] in ("<<", ">>", "<<=", ">>=")
+                                      for n in f.live_nodes())
             consts[role] = (shifts, masks, flags, thresh)
             rep.inst(f.loc, "%s: shift %s mask %s flag %s threshold %s" % (f.qn, sorted(shifts), sorted(masks), sorted(flags), sorted(thresh)))
         es, em, ef, et = consts["enc"]
         ds, dm, df, dt = consts["dec"]
         rep.ob()
         problems = []
-        if len(es) != 1 or es != ds:
+        # a side that is not written with shifts and masks at all (say, a table-driven encoder) gives no constants to compare:
+        # that is undecided, not a disagreement
+        if (not es and not has_shift_ops["enc"]) or (not ds and not has_shift_ops["dec"]):
+            rep.notes.append("%s / %s: %s is not written with shifts: constants not compared (undecided)" % (
+                en, dn, "the encoder" if not es else "the decoder"))
+        elif len(es) != 1 or es != ds:
             problems.append("group widths differ (encoder shifts by %s, decoder by %s)" % (sorted(es), sorted(ds)))
         else:
             w = next(iter(es))
-            if em != {(1 << w) - 1} or dm != {(1 << w) - 1}:
+            if (em and em != {(1 << w) - 1}) or (dm and dm != {(1 << w) - 1}):
                 problems.append("payload mask is not 2^%d-1 on both sides (encoder %s, decoder %s)" % (w, sorted(em), sorted(dm)))
-            if ef != {1 << w} or df != {1 << w}:
+            if (ef and ef != {1 << w}) or (df and df != {1 << w}):
                 problems.append("terminator bit is not 2^%d on both sides (encoder %s, decoder %s)" % (w, sorted(ef), sorted(df)))
-            if et != {(1 << w) - 1}:
+            if et and et != {(1 << w) - 1}:
                 problems.append("continuation threshold is %s, not 2^%d-1" % (sorted(et), w))
         for i, pr in enumerate(problems):
             rep.viol("%s<->%s#%d" % (en, dn, i), enc.loc, "%s / %s: %s: some values do not decode to what was encoded" % (en, dn, pr), enc.qn)
